@@ -1247,24 +1247,40 @@ def max_dev_of(tier, item):
 
 
 def cost_of(tier, item):
-    k = _POINTS.get(item["gen"], 3)
-    if item["cfg"].get("loc_distribution") not in (None, "uniform", "center", "corner", "normal", "gaussian"):
+    """rough CPU estimate in ms (calibrated on the quick tier): executions x (generate + judge) + environment runs"""
+    gen, cfg = item["gen"], item["cfg"]
+    g = GENS[gen]
+    k = _POINTS.get(gen, 3)
+    if cfg.get("loc_distribution") not in (None, "uniform", "center", "corner", "normal", "gaussian", "cls:Uniform"):
         k += 6
     md = max_dev_of(tier, item)
     n_exec = 1 + 5 * k + (25 * k * (k - 1) // 2 if md == 2 else 0)
-    g = GENS[item["gen"]]
-    size = g.size(item["cfg"])
-    per = 1.0 + size / 20.0
-    if g.tiny(item["cfg"]):
-        per += 4.0 * bnum(item["B"])
-    return n_exec * per
+    size = g.size(cfg)
+    rows = bnum(item["B"])
+    cost = n_exec * (2.0 + size / 20.0)
+    if not g.solvable(cfg):
+        return cost
+    n_solv = n_exec if g.tiny(cfg) else 1 + 2 * k
+    if g.small(cfg):
+        if gen == "ffsp":
+            per = 150.0
+        elif gen in ("fjsp", "jssp"):
+            per = 30.0
+        elif gen in ("cvrp", "cvrptw", "mtvrp", "svrp"):
+            per = {3: 12.0, 4: 30.0}.get(size, 90.0)
+        else:
+            per = {3: 6.0, 4: 10.0}.get(size, 25.0)
+    else:
+        steps = {"ffsp": 1.5 * size, "fjsp": 1.5 * size, "jssp": size, "flp": cfg.get("to_choose", 10), "mcp": cfg.get("n_sets_to_choose", 10)}.get(gen, 2.0 * size)
+        per = 2 * steps * (3.5 if gen in ("cvrptw", "mtvrp", "fjsp", "jssp") else 2.0)
+    return cost + n_solv * rows * per
 
 
 def make_units(tier, seed):
     only = os.environ.get("VERIF_ONLY")
     items = [it for it in grid(tier) if not only or only in it["gen"]]
     items.sort(key=lambda it: -cost_of(tier, it))
-    budget = 400.0 if tier == "quick" else 2500.0
+    budget = 2500.0 if tier == "quick" else 15000.0
     units, cur, acc = [], [], 0.0
     for it in items:
         c = cost_of(tier, it)
